@@ -35,10 +35,24 @@ def Ip.isV6 : Ip → Bool
   | .v4 _ => false
   | .v6 _ => true
 
+/-- `AttributeData` discriminant. -/
+inductive AttrKind where
+  | val | bin | opq
+  deriving DecidableEq, Repr
+
+/-- `bgp::Attribute` (`Val(u32)` uses `val`, `Bin`/`Opaque` use `data`). -/
+structure Attr where
+  code : Nat
+  flags : Nat
+  kind : AttrKind
+  val : Nat
+  data : Bytes
+  deriving DecidableEq, Repr
+
 /-- Canonical content of a BGP message as the harness prints it (`msg_term` in c19.rs); only the
-    spec looks inside.  `attrs`/`other` are the characters of the canonical term. -/
+    spec looks inside.  `other` holds the characters of the canonical term. -/
 inductive Content where
-  | reach (fam : Nat) (ents : List (Nat × Bytes)) (nh : Option Bytes) (attrs : Bytes)
+  | reach (fam : Nat) (ents : List (Nat × Bytes)) (nh : Option Bytes) (attrs : List Attr)
   | unreach (fam : Nat) (ents : List (Nat × Bytes))
   | eor (fam : Nat)
   | other (s : Bytes)
@@ -107,29 +121,19 @@ def MpHdr.encode (h : MpHdr) : Bytes :=
      | .v4 a => u16 1 ++ (a ++ (match h.laddr with | .v4 l => l | .v6 _ => []))
      | .v6 a => u16 2 ++ (a ++ (match h.laddr with | .v6 l => l | .v4 _ => []))))
 
-/-- `AttributeData` discriminant. -/
-inductive AttrKind where
-  | val | bin | opq
-  deriving DecidableEq, Repr
-
-/-- `bgp::Attribute` (`Val(u32)` uses `val`, `Bin`/`Opaque` use `data`). -/
-structure Attr where
-  code : Nat
-  flags : Nat
-  kind : AttrKind
-  val : Nat
-  data : Bytes
-  deriving DecidableEq, Repr
+/-- `Attribute::put_fixed_len`: the length of a fixed-size value, two octets when the stored flags carry
+    the extended-length bit. -/
+def putFixedLen (flags len : Nat) : Bytes := if flags &&& 16 > 0 then u16 len else u8 len
 
 /-- `Attribute::encode` (`value().unwrap()` / `binary().unwrap()` panic on the other payload kind). -/
 def Attr.encode (a : Attr) : Option Bytes :=
   if a.code = 1 then
     match a.kind with
-    | .val => some (u8 a.flags ++ (u8 a.code ++ (u8 1 ++ u8 a.val)))
+    | .val => some (u8 a.flags ++ (u8 a.code ++ (putFixedLen a.flags 1 ++ u8 a.val)))
     | _ => none
   else if a.code = 4 ∨ a.code = 5 ∨ a.code = 9 then
     match a.kind with
-    | .val => some (u8 a.flags ++ (u8 a.code ++ (u8 4 ++ u32 a.val)))
+    | .val => some (u8 a.flags ++ (u8 a.code ++ (putFixedLen a.flags 4 ++ u32 a.val)))
     | _ => none
   else
     match a.kind with
@@ -218,8 +222,9 @@ def bmpMsg (code : Nat) (body : Bytes) : Bytes :=
 
 def encodeTlv (t : Nat × Bytes) : Bytes := u16 t.1 ++ (u16 t.2.length ++ t.2)
 
-/-- BGP4MP subtype chosen by `MrtCodec::encode` (`Header::SUBTYPE_AS4` / `SUBTYPE_AS4_ADDPATH`). -/
-def mpSubtype (_asn4 ap : Bool) : Nat := if ap then 8 else 4
+/-- BGP4MP subtype chosen by `MrtCodec::encode` (`Header::SUBTYPE_AS4` = 4 / `SUBTYPE_AS4_ADDPATH` = 9 since the
+    repair; before it 8, which RFC 8050 assigns to the two-octet-AS add-path message).  `is_asn4` plays no part. -/
+def mpSubtype (_asn4 ap : Bool) : Nat := if ap then 9 else 4
 
 /-- Bytes appended to the output buffer for one record; `none` = the Rust code panics. -/
 def Rec.encode : Rec → Option Bytes
@@ -247,9 +252,9 @@ def encodeAll : List Rec → Option Bytes
     | some x, some y => some (x ++ y)
     | _, _ => none
 
-/-- A case: the decoder table (frame ↦ content read with add-path off / on) and the records. -/
+/-- A case: the decoder table ((add-path, frame) ↦ content the real decoder reads) and the records. -/
 structure Case where
-  tbl : List (Bytes × Content × Content)
+  tbl : List (Bool × Bytes × Content)
   recs : List Rec
   deriving Repr
 
